@@ -531,6 +531,8 @@ def replay_discrete_w(payload):
     only = payload.get("only")
     fails, ncalls, nsig = [], 0, {}
     st = {"base": 0, "relation": 0, "verdict": 0}
+    from ..frames import df_snapshot
+    all_frames = []          # (frame, snapshot at construction, case): C16 - a test never changes the data it is given
 
     for rec in payload["cases"]:
         case = rec["case"]
@@ -550,6 +552,7 @@ def replay_discrete_w(payload):
             key = variant
             if key not in frames:
                 frames[key] = build_frame(rows, cols, names, variant, random.Random(payload["seed"] * 7 + len(rows)))
+                all_frames.append((frames[key], df_snapshot(frames[key]), rec))
             return frames[key]
 
         def fail(fname, clause, L, feats, obs, expd, call):
@@ -707,6 +710,11 @@ def replay_discrete_w(payload):
                     fail("power_divergence", "relation.raises", L, feats, repr(ex)[:200], list(exp[L]), call)
                     continue
                 check_tuple("power_divergence", lam_arg, L, out, "relation.", feats, call)
+    changed = [r for df_, snap, r in all_frames if df_snapshot(df_) != snap]
+    for r in changed[:2]:
+        fails.append({"api": "CITests.power_divergence", "clause": "data_argument_changed", "features": {},
+                      "case": {"kind": "discrete", "header": hdr, "case": r, "seed": payload["seed"], "hashseed": hs, "only": None},
+                      "observed": None, "expected": "the data frame as passed in"})
     return {"n": len(payload["cases"]), "calls": ncalls, "fails": fails, "stats": st, "nsig": nsig}
 
 
